@@ -288,6 +288,25 @@ fn structural_extremes() -> Vec<(String, Vec<u8>, Vec<Parser>)> {
         v.push((format!("bencode-lists-depth-{}", depth), format!("{}{}", "l".repeat(depth), "e".repeat(depth)).into_bytes(), vec![Parser::HttpResponse]));
         v.push((format!("bencode-dicts-depth-{}", depth), format!("{}i1e{}", "d1:a".repeat(depth), "e".repeat(depth)).into_bytes(), vec![Parser::HttpResponse]));
     }
+    // deep nesting after a string that ends in, or contains, every combination of escapes: a nesting pre-check has to
+    // track string boundaries exactly (escaped backslash before the closing quote, escaped quote, brackets inside strings)
+    let units = ["x", "\\\\", "\\\"", "[", "{", "\\u005c"];
+    let mut bodies: Vec<String> = Vec::new();
+    for a in units {
+        bodies.push(a.to_string());
+        for b in units {
+            bodies.push(format!("{}{}", a, b));
+            for c in units {
+                bodies.push(format!("{}{}{}", a, b, c));
+            }
+        }
+    }
+    let nest = format!("{}{}", "[".repeat(30_000), "]".repeat(30_000));
+    let nest_obj = format!("{}1{}", "{\"a\":".repeat(12_000), "}".repeat(12_000));
+    for (i, body) in bodies.iter().enumerate() {
+        v.push((format!("json-nesting-after-string-value-{}", i), format!("{{\"a\":\"{}\",\"b\":{}}}", body, nest).into_bytes(), all_json.clone()));
+        v.push((format!("json-nesting-after-string-key-{}", i), format!("{{\"{}\":1,\"b\":{}}}", body, if i % 2 == 0 { &nest } else { &nest_obj }).into_bytes(), all_json.clone()));
+    }
     // bencode with huge declared lengths / numbers inside the input
     for s in ["99999999999:", "d5:peers99999999999:abc", "d8:completei99999999999999999999999e10:incompletei0e8:intervali0ee", "d5:filesd20:aaaaaaaaaaaaaaaaaaaad8:completei-1e10:downloadedi0e10:incompletei0eeee", "i-0e", "d14:failure reason18446744073709551615:x"] {
         v.push((format!("bencode-{}", &s[..s.len().min(12)]), s.as_bytes().to_vec(), vec![Parser::HttpResponse]));
@@ -612,7 +631,7 @@ pub fn main(args: &Args) -> ! {
         child(args);
     }
     let mut run = Run::new(args, "exploration");
-    run.set("rule", "per parser: every byte string of length 0..=2 (and 3 for the UDP parsers / peer-id parser in the thorough tier); for each of ~45 valid messages of every kind: every truncation, extension by 1..=4 bytes of 7 values, every single-bit flip, every single-byte substitution by all 256 values, every single-byte deletion and duplication; structural extremes (numeric extremes, '=' '&' '%' at every position, identifier lengths 0..=40, JSON / bencode nesting to 32768, 64 KiB strings, nulls and wrong types for every field, 15/16/17/40 headers); handler level: extreme field values x limits {0,1,2,default} x swarm sizes {0,1,2,3,5,6,40} on the real storage handlers. distinct_nontrivial = inputs the parsers rejected + accepted mutants (every input is distinct by construction)");
+    run.set("rule", "per parser: every byte string of length 0..=2 (and 3 for the UDP parsers / peer-id parser in the thorough tier); for each of ~45 valid messages of every kind: every truncation, extension by 1..=4 bytes of 7 values, every single-bit flip, every single-byte substitution by all 256 values, every single-byte deletion and duplication; structural extremes (numeric extremes, '=' '&' '%' at every position, identifier lengths 0..=40, JSON / bencode nesting to 32768, JSON nesting to 30000 after every string of 1..=3 units out of {x, escaped backslash, escaped quote, [, {, \\u005c} as a value and as a key, 64 KiB strings, nulls and wrong types for every field, 15/16/17/40 headers); handler level: extreme field values x limits {0,1,2,default} x swarm sizes {0,1,2,3,5,6,40} on the real storage handlers. distinct_nontrivial = inputs the parsers rejected + accepted mutants (every input is distinct by construction)");
     run.set("alloc_bound", format!("bytes requested during a call <= {} * input length + {}", K1, K2));
     run.assume("Connection::read_request panicking when runs_behind_reverse_proxy is set and the header is absent is a documented deployment contract, not judged; the parser-level function returns an error value, which is checked");
     run.assume("overflow checks are on in the harness profile (the repository's release profile would wrap silently)");
